@@ -129,6 +129,12 @@ pub fn format_of(name: &str) -> OutputFormat {
 
 pub fn run_executor(tables: &Tables, stmt: &Statement, paths: &[PathBuf], format: &str, single_result: bool,
                     running: Arc<AtomicBool>, stop_after: Option<usize>) -> ExecOut {
+    run_executor_opts(tables, stmt, paths, format, single_result, running, stop_after, true)
+}
+
+/// `print_result = false` is the executor's quiet mode (statistics only, nothing printed)
+pub fn run_executor_opts(tables: &Tables, stmt: &Statement, paths: &[PathBuf], format: &str, single_result: bool,
+                         running: Arc<AtomicBool>, stop_after: Option<usize>, print_result: bool) -> ExecOut {
     let mut printed = Vec::new();
     let mut total_lines = 0;
     let mut total_result_rows = 0;
@@ -136,7 +142,7 @@ pub fn run_executor(tables: &Tables, stmt: &Statement, paths: &[PathBuf], format
         let mut files = Vec::new();
         for p in paths { files.push(File::open(p).map_err(|e| format!("open {}: {}", p.display(), e))?); }
         let printer = RecPrinter::new(running.clone(), stop_after);
-        let opts = DisplayOptions { output_format: format_of(format), single_result, print_result: true };
+        let opts = DisplayOptions { output_format: format_of(format), single_result, print_result };
         let mut ex = FileExecutor::with_output_printer(running.clone(), files, opts, printer, ExecutionEngine::new(tables, stmt)).map_err(|e| format!("{}", e))?;
         let res = ex.execute();
         printed = ex.output_printer().printer().lines.clone();
